@@ -89,6 +89,22 @@ def trace_all():
     return out
 
 
+def untraced_writers():
+    """public methods of LiteAxolotlStore of the CURRENT source that are neither readers nor among the traced operations: a new writer would
+    escape the analysis"""
+    import inspect
+    from lib import axo
+    from yowsup.axolotl.store.sqlite.liteaxolotlstore import LiteAxolotlStore
+    traced = set(v[0] for v in axo.OPS.values())
+    readers = ("load", "contains", "get", "isTrusted")
+    out = []
+    for name, fn in inspect.getmembers(LiteAxolotlStore, predicate=inspect.isfunction):
+        if name.startswith("_") or name.startswith(readers) or name in traced:
+            continue
+        out.append(name)
+    return sorted(out)
+
+
 def generate():
     ops = trace_all()
     L = ["/- REGENERATED on every run by tracing every store API operation of yowsup/axolotl/store/sqlite/*.py",
@@ -97,5 +113,6 @@ def generate():
          "/-- (operation id, variant: 0 = key absent / 1 = key present, traced write statements) -/",
          "def storeOps : List (Nat × Nat × List Sk) := ["]
     L.append(",\n".join("  (%d, %d, [%s])" % (o, v, ", ".join(s for s in sk if s != ".rollback") ) for o, v, sk in ops))
-    L += ["]", "end Yow.Gen", ""]
+    L += ["]", "", "/-- public methods of the store that write but are not among the traced operations (must be none) -/",
+          "def untracedWriters : List String := [%s]" % ", ".join('"%s"' % n for n in untraced_writers()), "end Yow.Gen", ""]
     return "\n".join(L)
